@@ -176,9 +176,9 @@ def run(tier: str, seed: int):
         g, ds, txt = U.universe(tier, seed, U.EXT, quick_nodes=4, quick_limit=5000)
     else:
         g, ds, txt = U.universe(tier, seed, U.EXT, thorough_nodes=4)
-        ds += U.random_descrs(seed, U.EXT, 5, 40000) + U.random_descrs(seed, U.EXT, 6, 25000) + U.random_descrs(seed, U.EXT, 7, 12000) \
-            + U.random_descrs(seed, U.EXT, 9, 4000, childless=('leaf', 'leaf', 'none'))
-        txt += '; 40000/25000/12000/4000 seeded random 5/6/7/9-node trees'
+        ds += U.random_descrs(seed, U.EXT, 5, 20000) + U.random_descrs(seed, U.EXT, 6, 12000) + U.random_descrs(seed, U.EXT, 7, 6000) \
+            + U.random_descrs(seed, U.EXT, 9, 2000, childless=('leaf', 'leaf', 'none'))
+        txt += '; 20000/12000/6000/2000 seeded random 5/6/7/9-node trees'
     codified = 0
     for i, d in enumerate(ds):
         tree = g.build(d)
